@@ -110,6 +110,38 @@ Theorem C15_delivered_once_in_order : forall cfg evs,
 Proof. exact delivered_once_in_order. Qed.
 Print Assumptions C15_delivered_once_in_order.
 
+(* the last-unsolicited record holds only ACCEPTED fragments: a receive step that does not accept an
+   unsolicited fragment (solicited, unparsable, gated by the start-up sequence, foreign, malformed)
+   leaves it unchanged ... *)
+Theorem C15_ignored_fragment_not_recorded : forall cfg evs k src frag v items,
+  nth_error evs k = Some (ERx src frag v items) ->
+  unsol_new cfg (state_at cfg evs k) src frag v = None ->
+  s_last_unsol (state_at cfg evs (S k)) = s_last_unsol (state_at cfg evs k).
+Proof. exact ignored_fragment_not_recorded. Qed.
+Print Assumptions C15_ignored_fragment_not_recorded.
+
+(* ... whatever it holds was accepted at an earlier step ... *)
+Theorem C15_recorded_was_accepted : forall cfg evs k x,
+  (k <= length evs)%nat -> s_last_unsol (state_at cfg evs k) = Some x ->
+  exists j src frag v items h objs,
+    (j < k)%nat /\ nth_error evs j = Some (ERx src frag v items) /\
+    parse_response frag = PResponse h objs /\ h_unsol h = true /\
+    unsol_accepts cfg (state_at cfg evs j) src h objs v = true /\ x = (hdr_bytes h, objs).
+Proof. exact recorded_was_accepted. Qed.
+Print Assumptions C15_recorded_was_accepted.
+
+(* ... so a fragment is reported as a repeat only if the SAME fragment was accepted before *)
+Theorem C15_duplicate_only_of_accepted : forall cfg evs k o q,
+  nth_error (run cfg evs) (S k) = Some o -> In (OInfoUnsol true q) (map snd o) ->
+  exists src frag v items h objs,
+    nth_error evs k = Some (ERx src frag v items) /\ parse_response frag = PResponse h objs /\ h_unsol h = true /\
+    exists j src' frag' v' items',
+      (j < k)%nat /\ nth_error evs j = Some (ERx src' frag' v' items') /\
+      parse_response frag' = PResponse h objs /\
+      unsol_accepts cfg (state_at cfg evs j) src' h objs v' = true.
+Proof. exact duplicate_only_of_accepted. Qed.
+Print Assumptions C15_duplicate_only_of_accepted.
+
 (* ---------------------------------------------------------------------------------------- *)
 (* non-vacuity *)
 
@@ -148,6 +180,23 @@ Example C15_nonread_con_and_duplicate :
                        ERx 1024 [243; 130; 0; 0; 1; 2; 0; 0; 0; 129] VOk [[120]];
                        ERx 1024 [243; 130; 0; 0; 1; 2; 0; 0; 0; 129] VOk [[120]]])
   = [[]; []; [OTxConfirm 1024 false 0; ORes 3 ROk; OInfoSuccess (TEmpty 2) 2 0];
+     [OCbBegin RtUnsol [243; 130; 0; 0]; OCbItem [120]; OCbEnd RtUnsol [243; 130; 0; 0];
+      OInfoUnsol false 3; OTxConfirm 1024 true 3];
+     [OInfoUnsol true 3; OTxConfirm 1024 true 3]].
+Proof. vm_compute; reflexivity. Qed.
+
+(* start-up integrity poll enabled: an unsolicited fragment WITH data that arrives while the poll
+   is outstanding is ignored (not delivered, not confirmed, not recorded); when the outstation
+   retries the byte-identical fragment after the poll has completed it is a FIRST delivery, and
+   only the third copy is a repeat *)
+Example C15_gated_fragment_retried :
+  map act (run (mk_mcfg 1024 1000 0 0 1 1000 10000 16 249)
+    [ERx 1024 [243; 130; 0; 0; 1; 2; 0; 0; 0; 129] VOk [[120]];
+     ERx 1024 [192; 129; 0; 0] VOk [];
+     ERx 1024 [243; 130; 0; 0; 1; 2; 0; 0; 0; 129] VOk [[120]];
+     ERx 1024 [243; 130; 0; 0; 1; 2; 0; 0; 0; 129] VOk [[120]]])
+  = [[]; [];
+     [OCbBegin RtIntegrity [192; 129; 0; 0]; OCbEnd RtIntegrity [192; 129; 0; 0]; OInfoSuccess TIntegrity 1 0];
      [OCbBegin RtUnsol [243; 130; 0; 0]; OCbItem [120]; OCbEnd RtUnsol [243; 130; 0; 0];
       OInfoUnsol false 3; OTxConfirm 1024 true 3];
      [OInfoUnsol true 3; OTxConfirm 1024 true 3]].
